@@ -114,3 +114,108 @@ def aerostruct_symbolic(surface, **kw):
     G = pipe.GroupPipe(prob, root="AS_point_0", extra=kernels.EVAL_MTX_STUBS, skip=(".failure",), assume_for={"CreateRHS": big_loads})
     G.run()
     return G
+
+
+def wiring_check(rep, group_factory, label, family, timeout, extra=None, assume_for=None, abstract=(), values=None, skip_inputs=()):
+    """by-name wiring obligations of one real group (symoas.pipe.by_name_obligations) with a numeric replay: the real
+    group is run on floats and every component output is recomputed by a standalone instance of the same component fed
+    with the group's same-named values."""
+    import openmdao.api as om
+    from symoas import model
+    from symoas.model import idents, run_obligations
+
+    defaults = {}
+
+    def build():
+        import re
+
+        for attempt in range(3):
+            prob = om.Problem(reports=False)
+            prob.model.add_subsystem("g", group_factory(), promotes=["*"])
+            for n, (v, u) in defaults.items():
+                prob.model.set_input_defaults(n, val=v, units=u)
+            try:
+                with warnings.catch_warnings():
+                    warnings.simplefilter("ignore")
+                    prob.setup()
+                    prob.final_setup()
+                return prob
+            except RuntimeError as e:
+                # same-named inputs with different default values: the user has to pick one (OpenMDAO asks for it)
+                found = re.findall(r"promoted to '([^']+)' have different (?:values|units)[^\n]*\n\s*\n\s*\S+\s+(\S+)\s+\[?([-0-9.e+]+)", str(e))
+                if not found:
+                    raise
+                for n, u, v in found:
+                    defaults[n] = (float(v), None if u in ("None", "[") else u)
+        raise RuntimeError("could not set up the group")
+
+    prob = build()
+    rep.encode(type(prob.model.g))
+    specs, G = pipe.by_name_obligations(prob, extra=extra, assume_for=assume_for, abstract=abstract, skip_inputs=skip_inputs)
+    obs = []
+    for oid, real, byn, cpath, oname in specs:
+        obs += idents(oid, real, byn, assume=G.assumed, meta={"family": family, "comp": cpath, "out": oname})
+
+    def rp(ob, env):
+        return replay_wiring(build, values, ob.meta["comp"], ob.meta["out"])
+
+    run_obligations(rep, "real %s: wiring by name" % label, obs, timeout, replay=rp, levels=(1, 2), family=lambda ob: "%s: %s" % (label, ob.meta["family"]))
+    return G
+
+
+def replay_wiring(build, values, cpath, oname):
+    import openmdao.api as om
+
+    prob = build()
+    rng = np.random.default_rng(17)
+    ivc_in = {}
+    for abs_in, src in prob.model._conn_global_abs_in2out.items():
+        if src.startswith("_auto_ivc"):
+            ivc_in.setdefault(src, abs_in)
+    for src, abs_in in ivc_in.items():
+        prom = prob.model._resolver.abs2prom(abs_in, "input")
+        base = np.array(prob.get_val(prom), dtype=float)
+        v = (values or {}).get(prom.rsplit(".", 1)[-1])
+        try:
+            prob.set_val(prom, np.broadcast_to(v, base.shape) if v is not None else base * (1.0 + 0.1 * rng.random(base.shape)) + 0.05 * rng.random(base.shape))
+        except Exception:
+            pass
+    with warnings.catch_warnings():
+        warnings.simplefilter("ignore")
+        prob.run_model()
+    comp = prob.model._get_subsystem(cpath)
+    outs_by_local = {}
+    for absn in prob.model._var_allprocs_abs2meta["output"]:
+        if not absn.startswith("_auto_ivc"):
+            outs_by_local.setdefault(absn.rsplit(".", 1)[-1], absn)
+    ins_by_local = {}
+    for src, abs_in in ivc_in.items():
+        ins_by_local.setdefault(abs_in.rsplit(".", 1)[-1], abs_in)
+    p2 = om.Problem(reports=False)
+    fresh = type(comp)(**{k: comp.options[k] for k in comp.options if k not in ("assembled_jac_type", "derivs_method", "distributed", "run_root_only", "always_opt", "use_jit", "default_shape")})
+    p2.model.add_subsystem("c", fresh, promotes=["*"])
+    with warnings.catch_warnings():
+        warnings.simplefilter("ignore")
+        p2.setup()
+        for n in comp._var_rel_names["input"]:
+            u = comp._var_rel2meta[n].get("units")
+            shape = np.shape(p2.get_val(n))
+            val = None
+            for table in (outs_by_local, ins_by_local):
+                if n in table:
+                    try:
+                        cand = np.array(prob.get_val(table[n], units=u), dtype=float)
+                    except Exception:
+                        cand = None
+                    if cand is not None and cand.size == int(np.prod(shape)):
+                        val = cand.reshape(shape)
+                        break
+            if val is None:
+                val = np.array(prob.get_val(cpath + "." + n), dtype=float)
+            p2.set_val(n, val)
+        p2.run_model()
+    a = np.array(prob.get_val(cpath + "." + oname), dtype=float)
+    b = np.array(p2.get_val(oname), dtype=float)
+    d = float(np.abs(a - b).max())
+    sc_ = max(1.0, float(np.abs(b).max()))
+    return d > 1e-9 * sc_, "%s.%s in the real group differs from the same component fed with the group's same-named variables by %.6g (scale %.3g)" % (cpath, oname, d, sc_)
